@@ -10,6 +10,7 @@
 #include "corecel/Assert.hh"
 #include "corecel/Macros.hh"
 #include "corecel/Types.hh"
+#include "corecel/math/Algorithms.hh"
 
 #include "UniformGridData.hh"
 
@@ -92,6 +93,19 @@ CELER_FUNCTION size_type UniformGrid::find(value_type value) const
 {
     CELER_EXPECT(value >= this->front() && value < this->back());
     auto bin = static_cast<size_type>((value - data_.front) / data_.delta);
+    // The quotient can be off by one bin due to roundoff when the value is
+    // within a few ulp of a grid point: never return the final grid point
+    // (which would lead to interpolating past the end of the data), and
+    // correct the bin so that it brackets the value
+    bin = celeritas::min(bin, this->size() - 2);
+    if (value < (*this)[bin])
+    {
+        --bin;
+    }
+    else if (bin + 2 < this->size() && !(value < (*this)[bin + 1]))
+    {
+        ++bin;
+    }
     CELER_ENSURE(bin + 1 < this->size());
     return bin;
 }
